@@ -263,4 +263,23 @@ theorem C08_oracle_hypotheses_nonvacuous :
     Toy.prims.Lawful ∧ OpenCanonical Toy.prims ∧ SigCanonical Toy.prims :=
   ⟨Toy.lawful, toy_openCanonical, toy_sigCanonical⟩
 
+set_option maxRecDepth 100000 in
+/-- non-vacuity, end to end (kernel-evaluated, toy primitives): a V2 message of
+    the reference sender — anonymous sender, one visible and one hidden
+    recipient, two chunks — is accepted by the whole oracle; the same bytes
+    followed by one more MessagePack object (`c0`) are refused; so are the bytes
+    of a V1 attached signature offered as an encryption message -/
+example :
+    (encryption Toy.prims
+      (Spec.encodePlan Toy.prims 2 {} none (rsOf Toy.prims [([1], false), ([2], true)]) [5]
+        (List.replicate 32 3) [([9, 8], false), ([7], true)]) [[1], [2]]).toBool = true ∧
+    (encryption Toy.prims
+      (Spec.encodePlan Toy.prims 2 {} none (rsOf Toy.prims [([1], false), ([2], true)]) [5]
+        (List.replicate 32 3) [([9, 8], false), ([7], true)] ++ [0xc0]) [[1], [2]]).toBool = false ∧
+    (SpecDecode.attached Toy.prims 32
+      (Spec.attachedPlan Toy.prims 1 {} [4] (List.replicate 32 6) [([9, 8], false), ([], true)])).toBool = true ∧
+    (encryption Toy.prims
+      (Spec.attachedPlan Toy.prims 1 {} [4] (List.replicate 32 6) [([9, 8], false), ([], true)]) [[1]]).toBool = false := by
+  decide +kernel
+
 end Saltpack.Props.C08
